@@ -31,7 +31,7 @@ RULE = ("static: one obligation per estimator class (frame analysis) and per pub
         "grid_coordinates, block_split, rolling_window, line_coordinates, block cross-validators, BlockReduce/BlockMean, inside, "
         "scatter_points, make_xarray_grid) valid arguments with exactly one injected inconsistency (one coordinate / data / weight "
         "shape, weight or name count, both or neither of shape and spacing, inverted or wrong-length region, 3 spacing values) and the "
-        "valid controls, 1-D and 2-D shapes; dynamic: every estimator class x 1..4 fits on data sets of different sizes compared with a "
+        "valid controls (incl. raveled 1-D weights for 2-D data), 1-D and 2-D shapes; dynamic: every estimator class x 1..4 fits on data sets of different sizes compared with a "
         "fresh estimator, clone / get_params / set_params round trips, predict-like calls on unfitted instances, every public function "
         "and estimator method with argument bytes hashed before/after (writable and read-only arrays) and called twice. "
         "Non-trivial = the call is expected to succeed or is a single-fault rejection; distinct = distinct (entry, arguments).")
@@ -205,19 +205,26 @@ def _malformed(vd, rnd, tier):
     shapes = [(12,), (3, 4), (16,), (4, 4), (2, 3, 2)]
 
     def add(kind_term, obs, inp, repro, expect_reject):
+        kind = "malformed" if expect_reject else "malformed-control"
+        if str(inp.get("fault", "")).startswith("data-count"):
+            kind = "malformed-components"
+        elif inp.get("fault") == "weights-samesize":
+            kind = "malformed-weights-alignment"
         cases.append(Case(inp, {"returned": obs[0], "exception": obs[1]}, "c20_check_case %s %s" % (kind_term, cbool(obs[0])),
-                          repro, "malformed" if expect_reject else "malformed-control", nontrivial=True))
+                          repro, kind, nontrivial=True))
 
     for rep in range(reps):
         for s in shapes:
             n = int(np.prod(s))
             other = [t for t in [(n + 1,), (n - 1,), s + (1,), (1,) + s, (2, n)] if t != s and int(np.prod(t)) != n]
             samesize = [t for t in [(n,), (1, n), (n, 1)] if t != s]
+            wsame = [t for t in [(1, n), (n, 1), tuple(reversed(s)), (2, n // 2)] if t != s and t != (n,) and int(np.prod(t)) == n]
             for name, fn in ents.items():
                 if name != "check_fit_input" and len(s) == 3:
                     continue
                 ncoord = rnd.choice([2, 3])
-                faults = ["none", "none-weights", "coord", "data", "weights-shape", "weights-count", "weights-none-mixed", "data-samesize"]
+                faults = ["none", "none-weights", "weights-raveled", "coord", "data", "weights-shape", "weights-samesize",
+                          "weights-count", "weights-none-mixed", "data-samesize"]
                 for fault in faults:
                     cs = [s] * ncoord
                     ds = [s]
@@ -233,6 +240,10 @@ def _malformed(vd, rnd, tier):
                         ds = [rnd.choice(samesize)]
                     elif fault == "weights-shape":
                         ws = [rnd.choice(other)]
+                    elif fault == "weights-raveled":
+                        ws = [(n,)]                      # the 1-D raveled form check_fit_input itself returns: valid
+                    elif fault == "weights-samesize":
+                        ws = [rnd.choice(wsame)]         # e.g. (3,2) weights for (2,3) data: same size, not aligned
                     elif fault == "weights-count":
                         if name in ("Trend.fit", "Spline.fit", "Trend.filter"):
                             ws = [s, s]
@@ -253,11 +264,12 @@ def _malformed(vd, rnd, tier):
                     obs = _ok(lambda: fn(coords, data_arg, weights_arg))
                     term = "(CFitInput %s %s %s)" % (cshapes(cs), cshapes(ds), cweights(ws))
                     inp = {"entry": name, "fault": fault, "coordinate_shapes": cs, "data_shapes": ds, "weight_shapes": ws}
-                    repro = ("import numpy as np, verde as vd; z=lambda s: np.random.RandomState(0).uniform(1,2,s); "
-                             "print('%s', %r, %r, %r)" % (name, cs, ds, ws))
-                    add(term, obs, inp, repro, fault not in ("none", "none-weights"))
+                    repro = ("import numpy as np, verde as vd; z=np.ones; t=lambda l: tuple(None if s is None else z(s) for s in l); "
+                             "u=lambda x: x[0] if len(x) == 1 else x; "
+                             "print(vd.base.check_fit_input(t(%r), u(t(%r)), u(t(%r))))  # entry under test: %s" % (cs, ds, ws, name))
+                    add(term, obs, inp, repro, fault not in ("none", "none-weights", "weights-raveled"))
             # vector estimators
-            for fault in ["none", "data-count-1", "data-count-3", "coord", "data", "weights-shape", "weights-count"]:
+            for fault in ["none", "weights-raveled", "data-count-1", "data-count-3", "coord", "data", "weights-shape", "weights-samesize", "weights-count"]:
                 cs, ds, ws = [s, s], [s, s], [None, None]
                 if len(s) == 3:
                     continue
@@ -273,6 +285,10 @@ def _malformed(vd, rnd, tier):
                     ds = [s, rnd.choice(other)]
                 elif fault == "weights-shape":
                     ws = [s, rnd.choice(other)]
+                elif fault == "weights-raveled":
+                    ws = [(n,), s]
+                elif fault == "weights-samesize":
+                    ws = [s, rnd.choice(wsame)]
                 elif fault == "weights-count":
                     ws = [s]
                 coords = tuple(_arr(rnd, c) for c in cs)
@@ -282,13 +298,13 @@ def _malformed(vd, rnd, tier):
                 obs = _ok(lambda: vd.VectorSpline2D(damping=1e-3, mindist=1.0).fit(coords, data, wa))
                 term = "(CVecSpline %s %s %s)" % (cshapes(cs), cshapes(ds), cweights(ws))
                 add(term, obs, {"entry": "VectorSpline2D.fit", "fault": fault, "coordinate_shapes": cs, "data_shapes": ds, "weight_shapes": ws},
-                    "import verde as vd  # VectorSpline2D().fit with shapes %r %r %r" % (cs, ds, ws), fault != "none")
-                if fault not in ("data-count-1", "data-count-3"):
-                    # Vector of two Trends: same validation through check_fit_input (component-count faults: see report, finding candidate)
-                    obs = _ok(lambda: vd.Vector([vd.Trend(1), vd.Trend(1)]).fit(coords, data, wa))
-                    term = "(CFitInput %s %s %s)" % (cshapes(cs), cshapes(ds), cweights(ws))
-                    add(term, obs, {"entry": "Vector.fit", "fault": fault, "coordinate_shapes": cs, "data_shapes": ds, "weight_shapes": ws},
-                        "import verde as vd  # Vector([Trend(1)]*2).fit with shapes %r %r %r" % (cs, ds, ws), fault != "none")
+                    "import verde as vd  # VectorSpline2D().fit with shapes %r %r %r" % (cs, ds, ws), fault not in ("none", "weights-raveled"))
+                # Vector of two Trends: check_fit_input, then one data component per estimator (surplus and deficit are rejected)
+                obs = _ok(lambda: vd.Vector([vd.Trend(1), vd.Trend(1)]).fit(coords, data, wa))
+                term = "(CVector 2%%nat %s %s %s)" % (cshapes(cs), cshapes(ds), cweights(ws))
+                add(term, obs, {"entry": "Vector.fit", "n_estimators": 2, "fault": fault, "coordinate_shapes": cs, "data_shapes": ds, "weight_shapes": ws},
+                    "import numpy as np, verde as vd; z=np.ones; vd.Vector([vd.Trend(1), vd.Trend(1)]).fit(tuple(z(s) for s in %r), tuple(z(s) for s in %r), %s)"
+                    % (cs, ds, "None" if wa is None else "tuple(z(s) for s in %r)" % (ws,)), fault not in ("none", "weights-raveled"))
             # check_coordinates and its callers
             for fault in ["none", "coord"]:
                 cs = [s, s] if fault == "none" else rnd.choice([[s, rnd.choice(other)], [rnd.choice(other), s], [s, s, rnd.choice(other)]])
